@@ -7,7 +7,7 @@ LRM = "‎"
 # --- SIGMA: one lexeme per scanner rule and per shortcut visible in core.py / parse_table.py / tagparser.py / uniq.py
 PLAIN = ["a", " ", "\n", "\n\n", "\t", "\r"]
 LINESTART = ["\n*", "\n#", "\n:", "\n;", "\n ", "\n----", "\n==", "==\n", "\n===", "{|", "\n{|", "\n|}", "\n|-", "\n|", "||", "\n!", "!!", "\n|+"]
-INLINE = ["''", "'''", "'''''", "[[", "]]", "[", "]", "{{", "}}", "{{{", "}}}", "=", "|", ":"]
+INLINE = ["''", "'''", "'''''", "''''", "''''''", "[[", "]]", "[", "]", "{{", "}}", "{{{", "}}}", "=", "|", ":"]
 URLS = ["http://x.y", "[http://x.y", "//x.y", "mailto:a@b"]
 ENTITIES = ["&amp;", "&#65;", "&#x41;", "&#99999999999;", "&#xD800;", "&#0;", "&#x110000;", "&bogus;"]
 HTML_TAGS = ["b", "i", "u", "s", "small", "sup", "sub", "span", "div", "center", "blockquote", "p", "ul", "ol", "li", "dl", "dt",
@@ -69,6 +69,11 @@ CTX = [
     ("li", "<ul><li>%s</li></ul>"),
     ("between-blocks", "* a\n%s\n{|\n| c\n|}"),
     ("eot", "a %s"),
+    ("image-caption-div", "[[File:A.png|thumb|cap <div>%s</div>]]"),
+    ("image-caption-li", "[[File:A.png|thumb|<ul><li>%s</li></ul>]]"),
+    ("indent-table-cell", ":{|\n|-\n| outer\n%s\n|}\n"),
+    ("deflist-desc", "; t\n: %s\n"),
+    ("pre-in-indent-table", ":{|\n|-\n| a\n  pre %s text\n|}\n"),
 ]
 
 # --- TU: template universes behind the page ("with arbitrary template pages")
